@@ -2,17 +2,26 @@ package c04
 
 import (
 	"bufio"
+	"context"
 	"encoding/json"
 	"fmt"
 	"hash/fnv"
 	"reflect"
+	"runtime/debug"
 	"sort"
 	"strings"
+
+	"github.com/go-logr/logr"
 
 	metav1 "k8s.io/apimachinery/pkg/apis/meta/v1"
 	"sigs.k8s.io/controller-runtime/pkg/client"
 
+	ngfConfig "github.com/nginx/nginx-gateway-fabric/internal/mode/static/config"
+	ngxcfg "github.com/nginx/nginx-gateway-fabric/internal/mode/static/nginx/config"
 	"github.com/nginx/nginx-gateway-fabric/internal/mode/static/nginx/file"
+	"github.com/nginx/nginx-gateway-fabric/internal/mode/static/state"
+	"github.com/nginx/nginx-gateway-fabric/internal/mode/static/state/dataplane"
+	"github.com/nginx/nginx-gateway-fabric/internal/mode/static/state/graph"
 	p "github.com/nginx/nginx-gateway-fabric/verifharness/pipeline"
 	"github.com/nginx/nginx-gateway-fabric/verifharness/rng"
 )
@@ -100,8 +109,43 @@ type Run struct {
 	NoConf bool
 }
 
+// runPlus is RunFresh for NGINX Plus: the pipeline package wires no usage-report settings and no license
+// secret, so the same steps as Controller.Apply are taken here with the JWT put into the configuration.
+func runPlus(objs []client.Object, opts p.Options) (out p.Output) {
+	defer func() {
+		if r := recover(); r != nil {
+			out.Panic = fmt.Sprintf("%v\n%s", r, debug.Stack())
+		}
+	}()
+	c := p.NewController(opts)
+	c.Gen = ngxcfg.NewGeneratorImpl(true, &ngfConfig.UsageReportConfig{Endpoint: "usage.example.com:443", Resolver: "10.0.0.53"}, logr.Discard())
+	for _, o := range objs {
+		c.Upsert(o)
+	}
+	ct, gr := c.Proc.Process()
+	out.Change = ct
+	if ct == state.NoChange {
+		return out
+	}
+	out.Graph = gr
+	conf := dataplane.BuildConfiguration(context.Background(), gr, c.Resolver, 1)
+	if conf.AuxiliarySecrets == nil {
+		conf.AuxiliarySecrets = map[graph.SecretFileType][]byte{}
+	}
+	conf.AuxiliarySecrets[graph.PlusReportJWTToken] = []byte("jwt")
+	out.Conf = &conf
+	out.Files = c.Gen.Generate(conf)
+	out.Requests = p.PrepareRequests(gr, opts.Controller, nil)
+	return out
+}
+
 func doRun(objs []client.Object, opts p.Options) Run {
-	_, out := p.RunFresh(objs, opts, nil)
+	var out p.Output
+	if opts.Plus {
+		out = runPlus(objs, opts)
+	} else {
+		_, out = p.RunFresh(objs, opts, nil)
+	}
 	r := Run{Panic: out.Panic}
 	if out.Panic != "" {
 		return r
@@ -448,11 +492,17 @@ func Search(w *bufio.Writer, cfg Config) (stats map[string]int) {
 	id := 0
 	for _, base := range Bases() {
 		for _, variant := range Variants() {
-			if variant.Apply == nil {
-				continue
-			}
+			base := base // per-variant copy (the Plus variant changes the options)
 			objs0 := CopyObjs(base.Objs)
-			variant.Apply(objs0)
+			if variant.Apply == nil {
+				// NGINX Plus: only the scenario with the richest HTTP configuration, to bound the cost
+				if base.Name != "http" && base.Name != "grpctls" {
+					continue
+				}
+				base.Opts.Plus = true
+			} else {
+				variant.Apply(objs0)
+			}
 			r0 := doRun(objs0, base.Opts)
 			if r0.Panic != "" || r0.NoConf {
 				fmt.Fprintf(w, "X\tbase scenario %s/%s does not produce a configuration: %s\n", base.Name, variant.Name, Esc(r0.Panic))
@@ -462,6 +512,10 @@ func Search(w *bufio.Writer, cfg Config) (stats map[string]int) {
 			for _, l := range Leaves(objs0) {
 				// core kinds are validated by the API server itself (not by a CRD schema): names only
 				if coreKinds[l.Kind] && !l.Meta {
+					continue
+				}
+				// renaming a Namespace object leaves every namespaced object in a namespace that does not exist
+				if l.Kind == "Namespace" {
 					continue
 				}
 				if cfg.Only == "" || strings.Contains(l.Path, cfg.Only) {
